@@ -188,7 +188,7 @@ theorem stepAtom_nameInv (cfg : Cfg) (s : State) (a : Atom) (h : a.nameFree = tr
     · exact nameInv_empty u
   | mask m =>
     simp only [stepAtom]
-    rcases eventEnable_net s m with e | e <;> rw [e]
+    rcases eventEnable_net _ s m with e | e <;> rw [e]
     · exact hi
     · exact nameInv_empty u
   | chsw => exact hi
